@@ -92,6 +92,9 @@ def gen_world(args, scratch):
             probs = libsound.check_library(d, compl, random.Random(int(args.get('oracle_seed', 1))), stats=stats, nround=nround)
         except FileNotFoundError as e:
             probs = [('missing-file', os.path.basename(str(e.filename)))]
+        snap = '%s/precheck/%s__%d.txt' % (scratch, runname, compl)
+        if args.get('precheck') and nround and os.path.exists(snap) and not any(p[0] != 'inconclusive' for p in probs):
+            probs += libsound.check_precheck(d, compl, snap, nround, random.Random(int(args.get('oracle_seed', 1)) + 1), stats=stats)
         out['probs'] = [list(map(str, p)) for p in probs if p[0] != 'inconclusive'][:10]
         out['sig'] = libsound.classify(probs)
         out['stats'] = stats
@@ -657,6 +660,57 @@ def subs_world(args, scratch):
                 if 'nan' in rd or not subs_model.compose_equal(ch, rd, k):
                     probs.append(('composition-changed', ch, rd))
                     break
+    out['probs'] = [list(map(str, p)) for p in probs][:8]
+    out['sig'] = ('subs:%s' % probs[0][0]) if probs else None
+    out['stats'] = stats
+    return out
+
+
+# ------------------------------------------------------------------------------------------
+# C17 in situ: a generation followed, in the same job, by load_subs of the map file it wrote
+# ------------------------------------------------------------------------------------------
+def gen_load_world(args, scratch):
+    """P ranks generate a library and then - same processes, no barrier of the harness in between - load the final
+    parameter-map file, as a script that generates and then matches does.  Oracles: (a) every entitled rank gets the rows of
+    the file as it stands when the world has ended (row count, order, nan, keys, values); (b) the map file as the combining
+    stage wrote it (snapshot at the entry of check_results) composes, function by function, to the concatenation of the
+    per-round records: pair cancellation observed where ESR applies it."""
+    import csv
+    import re
+    from oracles import subs_model
+    os.makedirs(scratch, exist_ok=True)
+    runname, compl = args['runname'], int(args['compl'])
+    kw = dict(runname=runname, compl=compl)
+    if args.get('basis') is not None:
+        kw['basis'] = args['basis']
+    rel = 'pkg/esr/function_library/%s/compl_%d/inv_subs_%d.txt' % (runname, compl, compl)
+    mp_ = (compl + 1) // 2
+    prog = [['gen', kw], ['load_subs', dict(key='k', fname=rel, max_param=mp_, use_sympy=bool(args.get('use_sympy')), bcast_res=True)]]
+    res = run_world(world_spec(args, prog), scratch)
+    out = slim(res, keep_choices=bool(args.get('keep_choices', True)))
+    probs, stats = [], {}
+    d = libdir(scratch, runname, compl)
+    if res['violation'] is None and res['diverged'] is None:
+        with open(scratch + '/' + rel) as f:
+            rows = [r for r in csv.reader(f, delimiter=';')]
+        stats['rows'] = len(rows)
+        loaded = [rk['out'].get('load_subs', {}).get('k') for rk in res['ranks']]
+        for r, l in enumerate(loaded):
+            for p in subs_model.check_loaded(rows, l):
+                probs.append((p[0], 'in-situ-rank%d' % r) + tuple(p[1:]))
+            if probs:
+                break
+        nround = None
+        try:
+            m_ = re.findall(r'Round (\d+) of (\d+)', open(scratch + '/rank0.out').read())
+            if m_:
+                nround = int(m_[-1][1])
+        except Exception:
+            pass
+        snap = '%s/precheck/%s__%d.txt' % (scratch, runname, compl)
+        if not probs and nround and os.path.exists(snap):
+            for p in libsound.check_precheck(d, compl, snap, nround, random.Random(int(args.get('oracle_seed', 1)) + 1), stats=stats):
+                probs.append((p[0], 'combining-stage') + tuple(p[1:]))
     out['probs'] = [list(map(str, p)) for p in probs][:8]
     out['sig'] = ('subs:%s' % probs[0][0]) if probs else None
     out['stats'] = stats
